@@ -29,8 +29,8 @@ type C03Alt struct {
 }
 
 type C03Params struct {
-	Cmds  []C03Cmd `json:"cmds"`
-	Alts  []C03Alt `json:"alts"`
+	Cmds []C03Cmd `json:"cmds"`
+	Alts []C03Alt `json:"alts"`
 	// Sweep: additionally try, for every map-range site that saw an event with
 	// >= 2 elements, the reverse order and the rotations at that site alone.
 	Sweep bool `json:"sweep"`
@@ -347,8 +347,8 @@ func evalC03(sc *Scenario, sim *Sim) ([]Violation, bool, string) {
 			if kind, detail := describeDiff(base, again); kind != "" {
 				agree = false
 				viol = append(viol, Violation{Prop: "C03", Oracle: "repeatability",
-					Sig: fmt.Sprintf("C03/%s/%s/uncontrolled-nondeterminism", c.Name, kind),
-					Msg: fmt.Sprintf("`%s` gives different results in two runs under the identical schedule, clock and environment: a source of nondeterminism outside the seams", strings.Join(c.Argv, " ")),
+					Sig:    fmt.Sprintf("C03/%s/%s/uncontrolled-nondeterminism", c.Name, kind),
+					Msg:    fmt.Sprintf("`%s` gives different results in two runs under the identical schedule, clock and environment: a source of nondeterminism outside the seams", strings.Join(c.Argv, " ")),
 					Detail: detail})
 			}
 		}
@@ -383,8 +383,8 @@ func evalC03(sc *Scenario, sim *Sim) ([]Violation, bool, string) {
 				k2, _ := describeDiff(base, base2)
 				if k1 != "" || k2 != "" {
 					viol = append(viol, Violation{Prop: "C03", Oracle: "repeatability",
-						Sig: fmt.Sprintf("C03/%s/%s/uncontrolled-nondeterminism", c.Name, kind),
-						Msg: fmt.Sprintf("`%s` gives different results in two runs under the identical schedule, clock and environment: a source of nondeterminism outside the seams", strings.Join(c.Argv, " ")),
+						Sig:    fmt.Sprintf("C03/%s/%s/uncontrolled-nondeterminism", c.Name, kind),
+						Msg:    fmt.Sprintf("`%s` gives different results in two runs under the identical schedule, clock and environment: a source of nondeterminism outside the seams", strings.Join(c.Argv, " ")),
 						Detail: detail})
 					break
 				}
@@ -471,8 +471,8 @@ func evalC03(sc *Scenario, sim *Sim) ([]Violation, bool, string) {
 					}
 					if unstable {
 						viol = append(viol, Violation{Prop: "C03", Oracle: "repeatability",
-							Sig: fmt.Sprintf("C03/%s/%s/uncontrolled-nondeterminism", c.Name, kind),
-							Msg: fmt.Sprintf("`%s` gives different results in repeated runs under the identical schedule: a source of nondeterminism outside the seams", strings.Join(c.Argv, " ")),
+							Sig:    fmt.Sprintf("C03/%s/%s/uncontrolled-nondeterminism", c.Name, kind),
+							Msg:    fmt.Sprintf("`%s` gives different results in repeated runs under the identical schedule: a source of nondeterminism outside the seams", strings.Join(c.Argv, " ")),
 							Detail: detail})
 						agree = false
 						break
@@ -503,11 +503,11 @@ func joinPath(a, b string) string {
 
 func init() {
 	register(&Property{
-		ID:    "C03",
-		Level: "exploration",
-		Rule: "scenario = generated CRS tree (assembly programs biased to map-driven constructs: ambiguous directive lines, 1-3 suffix pairs incl. cascades and overlapping keys, nested / cyclic / computed definitions, flag sets, include-except) x 1-2 commands out of {generate, generate -, update, update --all, compare, compare --all, compare -o github, format, format --all, format --check} x 3 (quick) / 8 (thorough) seeded schedules (per-site default decision + <=4 per-event overrides; identity, reverse, rotations, seeded shuffles), each also with another simulated instant, unrelated environment variables and (30%) the tree relocated under another parent directory; oracle: exit status, stdout and the final tree equal those of the identity schedule. Non-trivial = at least one map-range event with >=2 elements received a non-identity order; distinct = distinct (world, commands, schedules).",
-		Gen:   genC03,
-		Eval:  evalC03,
+		ID:          "C03",
+		Level:       "exploration",
+		Rule:        "scenario = generated CRS tree (assembly programs biased to map-driven constructs: ambiguous directive lines, 1-3 suffix pairs incl. cascades and overlapping keys, nested / cyclic / computed definitions, flag sets, include-except) x 1-2 commands out of {generate, generate -, update, update --all, compare, compare --all, compare -o github, format, format --all, format --check} x 3 (quick) / 8 (thorough) seeded schedules (per-site default decision + <=4 per-event overrides; identity, reverse, rotations, seeded shuffles), each also with another simulated instant, unrelated environment variables and (30%) the tree relocated under another parent directory; oracle: exit status, stdout and the final tree equal those of the identity schedule. Non-trivial = at least one map-range event with >=2 elements received a non-identity order; distinct = distinct (world, commands, schedules).",
+		Gen:         genC03,
+		Eval:        evalC03,
 		QuickChecks: 320, ThoroughChecks: 6000, Timeout: 20 * time.Second,
 		Assumptions: []string{
 			"every permutation of a map's keys is a legal iteration order of the Go runtime (language specification)",
